@@ -86,6 +86,9 @@ def instantiate_axioms(exprs, packs):
             ax.append(z3.And(a > -PI / 2, a < PI / 2))
         for a in by.get("atan2", []):
             ax.append(z3.And(a > -PI, a <= PI))
+            # a non-negative second argument keeps the angle in the right half plane; the sign is that of the first one
+            ax.append(z3.Implies(a.arg(1) >= 0, z3.And(a >= -PI / 2, a <= PI / 2)))
+            ax.append(z3.And(z3.Implies(a.arg(0) >= 0, a >= 0), z3.Implies(a.arg(0) <= 0, a <= 0)))
     if "cos-sign" in packs:
         for a in by.get("cos", []):
             x = a.arg(0)
